@@ -4,15 +4,17 @@ ones to /verif/seeded/<Cxx>-<k>/ (patch.diff, demo.py, meta.json with what was r
 import json, os, re, shutil, subprocess, sys, tempfile
 
 VERIF = "/verif"
-props = sys.argv[1:] or sorted(d for d in os.listdir("/tmp/seedout") if re.fullmatch(r"C\d\d", d))
+SRC = next((a.split("=", 1)[1] for a in sys.argv[1:] if a.startswith("--src=")), "/tmp/seedout")
+OFFSET = int(next((a.split("=", 1)[1] for a in sys.argv[1:] if a.startswith("--offset=")), 0))
+props = [a for a in sys.argv[1:] if not a.startswith("--")] or sorted(d for d in os.listdir(SRC) if re.fullmatch(r"C\d\d", d))
 rows = []
 for p in props:
-    base = f"/tmp/seedout/{p}"
+    base = f"{SRC}/{p}"
     for ch in sorted(os.listdir(base)):
         d = os.path.join(base, ch)
         if not os.path.isfile(os.path.join(d, "patch.diff")) or not os.path.isfile(os.path.join(d, "demo.py")):
             continue
-        k = ch.replace("change", "")
+        k = str(int(ch.replace("change", "")) + OFFSET)
         wt = tempfile.mkdtemp(prefix="verify_wt_")
         os.rmdir(wt)
         subprocess.run(["git", "-C", "/repo", "worktree", "add", "-q", "--detach", wt, "HEAD"], check=True)
